@@ -424,7 +424,8 @@ func (tk *tokenizer) consumeUrl(pos Pos) (Token, Token) {
 			default:
 				tk.pos += w
 				// http://drafts.csswg.org/csswg/css-syntax/#non-printable-character
-				if strings.ContainsRune(nonPrintable, c) {
+				// (a backslash reaching this case is an invalid escape)
+				if strings.ContainsRune(nonPrintable, c) || c == '\\' {
 					goto badURL
 				}
 			}
